@@ -19,4 +19,5 @@ size_t aw_live_size(const void *);
 size_t aw_last_realloc_size(void);	/* size of the block most recently returned by a realloc, 0 if freed */
 void aw_enable(int on);			/* tracking/injection on or off (off: passes straight through) */
 extern void (*aw_free_hook)(void *, size_t);	/* called before a tracked block is released */
+extern void (*aw_strdup_hook)(void *, size_t);	/* called when the library duplicated a string into a new block */
 #endif
